@@ -1,5 +1,6 @@
 import ESRVerif.Model.Effects
 import ESRVerif.Generated.Effects
+import ESRVerif.Proofs.Effects
 /-!
 C16 — results do not depend on earlier runs.
 -/
@@ -137,7 +138,115 @@ theorem shuffles_seeded : ESR.Gen.Effects.unseededShuffles = [] := by decide +ke
 /-- every key a stage reads from the shared sympy symbol table is either static or (re)written by that call -/
 theorem locs_keys_written : ESR.Gen.Effects.locsReadBeforeWrite = [] := by decide +kernel
 
+/-! ### every execution of the stage (loops that run zero times or skip indices, open modes chosen at run time) -/
+
+/-- **Truncation dominates every read/append on every path.**  If the structured summary passes `safeAll` (decided in Lean on
+the regenerated table), then on EVERY execution of the stage — every loop body run any number of times including zero, a loop
+that is not `for v in range(e)` skipping any index, every run-time choice of an open mode taken either way — each file read or
+appended to has been truncated, written or removed earlier in that same execution. -/
+theorem truncation_dominates_every_execution (prog : Prog) (fresh : List String) (h : safeAll fresh prog = true) :
+    ∀ runs : List (List IterChoice), safe fresh (trace prog runs) = true :=
+  safe_trace prog fresh h
+
+/-- `history_independent` for every execution of a structured stage: whatever path the stage takes, two runs from any two
+persistent states (agreeing on `fresh`, the declared inputs) read the same values and leave the same bytes. -/
+theorem history_independent_every_execution (prog : Prog) (fresh : List String) (h : safeAll fresh prog = true)
+    (runs : List (List IterChoice)) (stmts : List Stmt) (hst : stmts.map (·.eff) = trace prog runs)
+    (s s' : Store) (env : List (List Val)) (hagree : ∀ g ∈ fresh, s g = s' g) :
+    (exec stmts s env).2 = (exec stmts s' env).2 ∧
+    ∀ g, (g ∈ fresh ∨ g ∈ (stmts.map (·.eff.file))) → (exec stmts s env).1 g = (exec stmts s' env).1 g :=
+  history_independent stmts fresh s s' env (hst ▸ truncation_dominates_every_execution prog fresh h runs) hagree
+
+/-- **The truncation is needed on the path taken** (why a conditional truncation is not enough).  Take any execution of a
+stage in which the file `p` is appended to but no truncating open / write / remove of `p` happens — e.g. its only truncation is
+`open(p, 'w' if i == 0 else 'a')` inside a loop and this execution never visits `i = 0`.  Then whatever the stage writes,
+there are two initial persistent states (an empty directory, and one where an earlier run left something in `p`) after which
+`p` holds different bytes; and the dominance check rejects the summary (`safeAll [] prog = false`). -/
+theorem append_after_conditional_truncate_depends_on_history (prog : Prog) (runs : List (List IterChoice)) (p : String)
+    (stmts : List Stmt) (hst : stmts.map (·.eff) = trace prog runs)
+    (hnotrunc : ∀ e ∈ trace prog runs, e.file = p → e.acc.isWrite = false)
+    (happend : ∃ e ∈ trace prog runs, e.file = p ∧ e.acc = .a) :
+    (∃ s s' : Store, (exec stmts s []).1 p ≠ (exec stmts s' []).1 p) ∧ safeAll [] prog = false := by
+  constructor
+  · have hno : ∀ st ∈ stmts, st.eff.file = p → st.eff.acc.isWrite = false := by
+      intro st hm
+      exact hnotrunc st.eff (hst ▸ List.mem_map_of_mem hm)
+    let n := ((exec stmts (fun _ => []) []).1 p).length
+    refine ⟨fun _ => List.replicate (n + 1) 0, fun _ => [], ?_⟩
+    obtain ⟨suf, hs⟩ := exec_keeps_prefix p stmts (fun _ => List.replicate (n + 1) 0) [] hno
+    intro heq
+    have hlen := congrArg List.length heq
+    rw [hs] at hlen
+    simp only [List.length_append, List.length_replicate] at hlen
+    omega
+  · cases hsa : safeAll [] prog with
+    | false => rfl
+    | true =>
+      have h1 := truncation_dominates_every_execution prog [] hsa runs
+      have h2 := unsafe_of_untruncated_append p (trace prog runs) [] (by simp) hnotrunc happend
+      rw [h1] at h2
+      exact absurd h2 (by decide)
+
+/-- files of a numbered family written by one loop of the stage and read back, member by member, by a later loop over the
+same count (`inv_subs_<n>_round_<k>`: written in round `k` of `do_sympy`, read by `load_subs` for `k < nround`).  That the later
+loop reads only members the earlier one wrote is a fact about the DATA (the round count), not about the order of statements:
+it is declared here and checked on every run by the audit trace (exact file names, `trace:read-before-write`). -/
+def roundFamilies : List String := ["inv_idx_#_round_#.txt", "inv_subs_#_round_#.txt"]
+
+/-- generation, every execution: apart from the declared round families, no file of the library directory is read or appended
+to on ANY path through duplicate_checker.main — zero topologies, skipped topologies, either arm of a run-time open mode —
+before that same execution has truncated/written it. -/
+theorem generation_truncation_dominates_every_execution :
+    safeAll roundFamilies ESR.Gen.Effects.generationProg = true := by decide +kernel
+
+/-- the appends of the topology loop start from files emptied on every path (nothing declared is involved) -/
+theorem generation_appends_dominated :
+    safeAll [] (ESR.Gen.Effects.generationProg.take 2) = true ∧
+    (ESR.Gen.Effects.generationProg.drop 2).all (fun b => match b with
+      | .straight ops | .loop _ ops => ops.all (fun g => g.eff.acc != .a && g.alt != .a)) = true := by decide +kernel
+
+/-- the structured summary lists the same effects as the flat one (conditional modes flattened to their weakest arm) -/
+theorem generation_prog_flattens :
+    (ESR.Gen.Effects.generationProg.flatMap (fun b => match b with
+      | .straight ops | .loop _ ops => ops.map (GEff.weak none))) = ESR.Gen.Effects.generation := by decide +kernel
+
+/-- With `history_independent_every_execution`: every execution of the generation stage leaves the same bytes from any two
+persistent states that agree on the declared round families.  Partial: the property grants no such agreement; that the
+round files read are the ones this run wrote is observed (audit trace), not proved. -/
+theorem generation_history_independent_every_execution_partial (runs : List (List IterChoice)) (stmts : List Stmt)
+    (hst : stmts.map (·.eff) = trace ESR.Gen.Effects.generationProg runs) (s s' : Store)
+    (hagree : ∀ g ∈ roundFamilies, s g = s' g) :
+    ∀ g ∈ stmts.map (·.eff.file), (exec stmts s []).1 g = (exec stmts s' []).1 g := by
+  intro g hg
+  exact (history_independent_every_execution _ _ generation_truncation_dominates_every_execution runs stmts hst s s' []
+    hagree).2 g (Or.inr hg)
+
 /-! non-vacuity -/
+
+/-- the shape of generate_equations today: truncate outside the loop, append inside -/
+def shapeHead : Prog := [.straight [⟨⟨"g", 1, "orig_trees", .w⟩, .always, .w⟩],
+  .loop false [⟨⟨"g", 2, "orig_trees", .a⟩, .always, .a⟩], .straight [⟨⟨"g", 3, "orig_trees", .r⟩, .always, .r⟩]]
+/-- truncation moved into the loop, tied to index 0, loop over a run-time selection of indices -/
+def shapeTied (skips : Bool) : Prog := [.loop skips [⟨⟨"g", 2, "orig_trees", .w⟩, .firstIteration, .a⟩]]
+
+example : safeAll [] shapeHead = true := by decide
+example : safeAll [] (shapeTied true) = false := by decide
+/-- `for i in range(n)` with `'w' if i == 0 else 'a'` is fine as far as the appends go (the first executed iteration truncates) -/
+example : safeAll [] (shapeTied false) = true := by decide
+/-- … but a read after that loop is not dominated (the loop may not run) -/
+example : safeAll [] (shapeTied false ++ [.straight [⟨⟨"g", 3, "orig_trees", .r⟩, .always, .r⟩]]) = false := by decide
+/-- two iterations, neither with index 0: both append -/
+example : trace (shapeTied true) [[⟨false, []⟩, ⟨false, []⟩]] = [⟨"g", 2, "orig_trees", .a⟩, ⟨"g", 2, "orig_trees", .a⟩] := by decide
+example : trace (shapeTied false) [[⟨false, []⟩, ⟨false, []⟩]] = [⟨"g", 2, "orig_trees", .w⟩, ⟨"g", 2, "orig_trees", .a⟩] := by decide
+/-- the hypotheses of `append_after_conditional_truncate_depends_on_history` hold for that execution -/
+example : (∀ e ∈ trace (shapeTied true) [[⟨false, []⟩]], e.file = "orig_trees" → e.acc.isWrite = false) ∧
+    (∃ e ∈ trace (shapeTied true) [[⟨false, []⟩]], e.file = "orig_trees" ∧ e.acc = .a) := by decide
+/-- and its conclusion, concretely: left-over content survives -/
+example : (exec [⟨⟨"g", 2, "orig_trees", .a⟩, fun _ => [7]⟩] (fun _ => [1]) []).1 "orig_trees" ≠
+    (exec [⟨⟨"g", 2, "orig_trees", .a⟩, fun _ => [7]⟩] (fun _ => []) []).1 "orig_trees" := by decide
+/-- the hypotheses of `history_independent_every_execution` are satisfiable with a loop that really runs -/
+example : safeAll [] shapeHead = true ∧ (trace shapeHead [[], [⟨true, []⟩, ⟨false, []⟩]]).length = 4 := by decide
+
 example : safe [] [⟨"f", 1, "orig_trees", .w⟩, ⟨"f", 2, "orig_trees", .a⟩, ⟨"f", 3, "orig_trees", .r⟩] = true := by decide
 example : safe [] [⟨"f", 2, "orig_trees", .a⟩] = false := by decide
 example : (exec [⟨⟨"f", 1, "t", .a⟩, fun _ => [7]⟩] (fun _ => [1]) []).1 "t" = [1, 7] := by decide
